@@ -301,6 +301,8 @@ func runChildren(bin string, prop string, n, workers int, tmp string, tag string
 // verifyFresh: a run whose in-process re-execution differed is executed alone in two fresh
 // processes. Equal digests mean the library carries state between runs of one process (reported in
 // the evidence, not an error); different digests mean the simulator itself is nondeterministic.
+var unrepeatable int // C14 runs whose digest differs between fresh processes on a library with sync primitives of its own
+
 func verifyFresh(bin, prop string, runs []int, tmp string) int {
 	sort.Ints(runs)
 	if len(runs) > 3 {
@@ -327,6 +329,15 @@ func verifyFresh(bin, prop string, runs []int, tmp string) int {
 			}
 			os.Remove(out)
 			os.Remove(out + ".hashes")
+		}
+		if d[0] != d[1] && !blockedInside && prop == "C14" && len(rt.SyncSites) > 0 {
+			// The library under test uses synchronisation primitives of its own. Some of them behave as
+			// the runtime pleases (whether sync.Pool hands back a used object or calls New depends on
+			// the garbage collector and on which P the goroutine sits), which changes how many
+			// statements a call executes and with that where a quantum ends. That is the library's
+			// nondeterminism, not the simulator's; it is reported, not treated as a defect of the run.
+			unrepeatable++
+			continue
 		}
 		if d[0] != d[1] && !blockedInside {
 			infra("nondeterminism: run %d of %s gives digests %x and %x in two fresh processes", r, prop, d[0], d[1])
